@@ -1,5 +1,5 @@
-(* C17: from the model of type_name (Render.v, strings) through the translated get_type_name_identifier (K43) and
-   clean_id (K42) to the lexical shape the closedness analysis resolves (K43Proofs.name_chain):
+(* C17: from the model of type_name (Render.v, strings) through the translated get_type_name_identifier (K44) and
+   clean_id (K42) to the lexical shape the closedness analysis resolves (K44Proofs.name_chain):
 
      a class rendered as  module.qualname  is referred to, in generated code, by a NAME CHAIN -
      the dotted path itself when module and qualname are dotted identifiers, the clean_id alias when the
@@ -8,8 +8,8 @@
    Also: the hand-written ASCII model NsBind.clean_id (used by the string-level binding lemmas) IS the translated
    kernel K42.clean_id on 7-bit input. *)
 From Coq Require Import List NArith Bool String Ascii Lia.
-From VerifGen Require Import K42 K43.
-From Verif Require Import K42Proofs K43Proofs NsBind Render.
+From VerifGen Require Import K42 K44.
+From Verif Require Import K42Proofs K44Proofs NsBind Render.
 Import ListNotations.
 Open Scope N_scope.
 
